@@ -867,7 +867,7 @@ fn run_one(cx: &mut Ctx, c: &Value) {
 pub fn run(args: &Args) {
     quiet_panics();
     let mut cx = Ctx {
-        sum: Summary::new("C02", "corpus; PA-Zip match lists: every kind at min/max/min-1/max+1 of each field and at the variable-length thresholds, all ordered pairs of kinds, random lists of length 0..40, random bytes through decode_matches; every Algorithm of the factory x 10 payload families (incompressible, text, runs around 33/34, near and far periods, skewed, all symbols) x 7 training relations (same, unrelated, single byte, subset ...); hybrid selector and rANS table against the model; adaptive and real-time front ends as operation histories with algorithm / mode switches and passed / distant deadlines; PA-Zip compressor presets x dictionary builders x payload sequences; a case is non-trivial when the payload has >= 2 bytes or the list >= 2 matches; distinct = distinct canonical case text"),
+        sum: Summary::new("C02", "corpus; PA-Zip match lists: every kind at min/max/min-1/max+1 of each field and at the variable-length thresholds, all ordered pairs of kinds, random lists of length 0..40, random bytes through decode_matches; every Algorithm of the factory x 10 payload families (incompressible, text, runs around 33/34, near and far periods, skewed, all symbols) x 7 training relations (same, unrelated, single byte, subset ...); hybrid selector and rANS table against the model; adaptive and real-time front ends as operation histories with algorithm / mode switches and passed / distant deadlines; PA-Zip compressor presets x dictionary builders x payload sequences; breadth families (c02_b.rs): operation histories on one PA-Zip compressor (compress into fresh / reused vectors, decode earlier blocks into fresh / reused vectors, reset_stats, statistics, clone, rebuild from the serialised dictionary) over 17 configuration variants x 21 dictionary variants x 7 kinds of training text, dictionary sizes at the suffix-array builder's switch points, payload sizes at 64 KiB / 1 MiB, dictionary answers checked against the dictionary text, every constructor of the compressor layer (all zstd levels, select_best, available_algorithms, direct constructors, presets) under histories with estimate_ratio / is_suitable / algorithm(), adaptive and real-time histories over every constructor and configuration field with housekeeping calls, deferred decoding, concurrent calls and runs of more than 2000 calls, raw bit streams (write_bits / flush / encode_match mixed), every entry point of SIMD LZ77; a case is non-trivial when the payload has >= 2 bytes or the list >= 2 matches; distinct = distinct canonical case text"),
         shards: CoqShards::new(HEADER, 150),
         coq_budget: if args.thorough { 6000 } else { 1500 },
         per_op: std::collections::HashMap::new(),
